@@ -10,6 +10,9 @@ import (
 // replayers maps a property id to the function that re-executes a saved scenario of that
 // property without rapid (same executor, same oracle).
 var replayers = map[string]func(t *testing.T, path string){
+	"C14": func(t *testing.T, p string) { core.Replay(t, propC14, p) },
+	"C15/decoder": func(t *testing.T, p string) { core.Replay(t, propC15Dec, p) },
+	"C15/grammar": func(t *testing.T, p string) { core.Replay(t, propC15Grammar, p) },
 	"C17": func(t *testing.T, p string) { core.Replay(t, propC17, p) },
 }
 
